@@ -120,6 +120,13 @@ def flipped(b, k):
     return bytes(bb)
 
 
+def subst(b, k):
+    """replace byte k by another printable byte (keeps big payloads compact in the Coq shards)"""
+    bb = bytearray(b)
+    bb[k] = 0x23 + (bb[k] - 0x23 + 1) % 90
+    return bytes(bb)
+
+
 def priors_for(good, alt):
     """every kind of prior archive state for this archive"""
     out = [('none', None), ('complete', good)]
@@ -258,16 +265,16 @@ def gen_cases(rng, tier):
     cases.append(mk(b'kapture-archive', expected=sha(b'kapture-archive').upper(), tag='core/expected-upper'))
     cases.append(mk(b'kapture-archive', expected='0' * 64, prior=b'kapture-archive', tag='core/expected-zero'))
     # --- B. files larger than the sha block (4096) and the download chunk (32768): differences far from the start
-    big = bytes((i * 131 + (i >> 8)) % 251 for i in range(9000))
+    big = bytes(0x23 + (i * 131 + (i >> 8)) % 90 for i in range(9000))
     for k in (4100, 8999):
-        cases.append(mk(big, alt=flipped(big, k), gets=[G(src='alt')], tag='big/flip-late', chunk=1000))
-        cases.append(mk(big, alt=flipped(big, k), get_default=G(src='alt'), tag='big/flip-late-always', chunk=1000))
-        cases.append(mk(big, alt=flipped(big, k), prior=flipped(big, k), probe_default=P('true'),
+        cases.append(mk(big, alt=subst(big, k), gets=[G(src='alt')], tag='big/flip-late', chunk=1000))
+        cases.append(mk(big, alt=subst(big, k), get_default=G(src='alt'), tag='big/flip-late-always', chunk=1000))
+        cases.append(mk(big, alt=subst(big, k), prior=subst(big, k), probe_default=P('true'),
                         get_default=G(conn=True), tag='big/prior-flip-late'))
     cases.append(mk(big, prior=big[:5000], tag='big/resume', chunk=700))
     cases.append(mk(big, prior=big[:4096], get_default=G(rng='ignore'), tag='big/resume-ignored', chunk=4096))
-    huge = bytes((i * 7 + (i >> 7)) % 256 for i in range(70000))
-    cases.append(mk(huge, alt=flipped(huge, 69999), gets=[G(src='alt')], tag='big/70k'))
+    huge = bytes(0x23 + (i * 7 + (i >> 7)) % 90 for i in range(34000))
+    cases.append(mk(huge, alt=subst(huge, 33999), gets=[G(src='alt')], tag='big/34k'))
     # --- C. small exhaustive block
     if thorough:
         exhaustive_small(cases, [b'', b'a', b'ab', b'abc', b'abcd'], full=True)
@@ -591,10 +598,6 @@ def oracle(case, obs):
 
 
 # ------------------------------------------------------------------ Coq encoding
-def cbytes(h):
-    return kv.cstr(B(h))
-
-
 def _creq(r):
     if r[0] == 'probe':
         return 'RProbe'
@@ -603,20 +606,16 @@ def _creq(r):
     return 'RBad'
 
 
-def _cresp(t):
-    p = {'none': 'PNone', 'err': 'PErr'}.get(t['probe'][0]) or '(PSize %s)' % kv.cz(t['probe'][1])
-    return '(mkResp %s %s %s %s)' % (kv.cbool(t['conn']), p, cbytes(t['body']), kv.cbool(t['stream_err']))
-
-
 def sha_table(case, obs):
-    """digests (hashlib) of every content the archive file can take: closure of prior / bodies under
-    'replace' and 'append', three rounds"""
-    bodies = {B(t['body']) for t in obs['trace'] if not t['conn']}
+    """digests (hashlib) of every content the archive file can take: closure of the prior content and the
+    downloaded bodies, in order, under replace and append"""
     contents = set()
     if case['prior_archive'] is not None:
         contents.add(B(case['prior_archive']))
-    for _ in range(3):
-        contents |= bodies | {c + b for c in contents for b in bodies}
+    for t, r in zip(obs['trace'], obs['requests']):      # each download replaces the file or appends to it
+        if r[0] != 'probe' and not t['conn']:
+            b = B(t['body'])
+            contents |= {b} | {c + b for c in contents}
     for e in obs['events']:
         if e[0] == 'extract':
             contents.add(B(e[1]))
@@ -626,6 +625,21 @@ def sha_table(case, obs):
 
 
 def encode(case, obs):
+    pool = {}
+
+    def cb(b):          # byte strings longer than a few bytes are let-bound once per case
+        if isinstance(b, str):
+            b = B(b)
+        if len(b) <= 12:
+            return kv.cstr(b)
+        if b not in pool:
+            pool[b] = 'b%d' % len(pool)
+        return pool[b]
+
+    def cresp(t):
+        p = {'none': 'PNone', 'err': 'PErr'}.get(t['probe'][0]) or '(PSize %s)' % kv.cz(t['probe'][1])
+        return '(mkResp %s %s %s %s)' % (kv.cbool(t['conn']), p, cb(t['body']), kv.cbool(t['stream_err']))
+
     if obs['outcome'] == 'raised':
         oc = 'ORaised'
     elif obs['outcome'] == 'returned':
@@ -635,21 +649,23 @@ def encode(case, obs):
     evs = []
     for e in obs['events']:
         if e[0] == 'extract':
-            evs.append('(EExtract %s %s)' % (cbytes(e[1]), kv.cbool(e[2])))
+            evs.append('(EExtract %s %s)' % (cb(e[1]), kv.cbool(e[2])))
         else:
             evs.append('(EUpgrade %s)' % kv.cbool(e[1]))
-    tbl = kv.clist(kv.cpair(kv.cstr(c), kv.cstr(d)) for c, d in sha_table(case, obs))
-    return ('{| c_name := %s; c_expected := %s; c_sha := %s; c_force := %s; c_noclean := %s; c_untar_fails := %s; '
+    tbl = kv.clist(kv.cpair(cb(c), kv.cstr(d)) for c, d in sha_table(case, obs))
+    body = ('{| c_name := %s; c_expected := %s; c_sha := %s; c_force := %s; c_noclean := %s; c_untar_fails := %s; '
             'c_archive := %s; c_index := %s; c_script := %s; o_outcome := %s; o_archive := %s; o_index := %s; '
             'o_requests := %s; o_log := %s |}' % (
                 kv.cstr(NAME), kv.cstr(case['expected']), tbl, kv.cbool(case['force']), kv.cbool(case['no_cleaning']),
                 kv.cbool(case['untar'] == 'fake_raises'),
-                kv.copt(None if case['prior_archive'] is None else cbytes(case['prior_archive'])),
+                kv.copt(None if case['prior_archive'] is None else cb(case['prior_archive'])),
                 kv.clist(kv.cstr(x) for x in obs['prior_names']),
-                kv.clist(_cresp(t) for t in obs['trace']), oc,
-                kv.copt(None if obs['archive'] is None else cbytes(obs['archive'])),
+                kv.clist(cresp(t) for t in obs['trace']), oc,
+                kv.copt(None if obs['archive'] is None else cb(obs['archive'])),
                 kv.clist(kv.cstr(x) for x in obs['index']),
                 kv.clist(_creq(r) for r in obs['requests']), kv.clist(evs)))
+    lets = ''.join('let %s : string := %s in\n ' % (n, kv.cstr(b)) for b, n in pool.items())
+    return '(' + lets + body + ')'
 
 
 # ------------------------------------------------------------------ evidence helpers
